@@ -3,7 +3,9 @@
 Decided: write ordering inside the lease operations, the regions they write,
 start-up cleaning of incoming/, and a symbolic check that the data-region bound
 recomputed on re-open is the same after every prefix of a lease operation's file
-effects (DESIGN.md section 5, C29)."""
+effects, and 'absent or complete': no written byte is still in a user-space
+buffer when BucketWriter publishes the share by rename, and nothing writes share
+data after that rename (DESIGN.md section 5, C29)."""
 from sa.h import *
 
 EXPLANATION = (
@@ -21,10 +23,20 @@ EXPLANATION = (
     "F - N*LEASE_SIZE; the ordered file effects of add_lease / cancel_lease are replayed on (F, N) and the formula "
     "must give the same value after every prefix. (6) MutableShareFile._write_lease_record: when a new extra-lease "
     "slot is appended, the record is written before the slot count that makes it visible. "
+    "(7) Absent-or-complete, buffers: every creation of a buffered writable file object in ShareFile / BucketWriter is "
+    "classified (with-block: closed when the block is left; local name only: released when the method returns, which "
+    "assumes CPython reference counting; stored in an instance attribute: it outlives the call). For each file object "
+    "that outlives its call, every path to the publishing rename in BucketWriter must pass a close()/flush() of it "
+    "(directly, through a ShareFile method that flushes on all its normal paths or finds the attribute None, or through "
+    "a BucketWriter helper doing so), with no write through it in between; a file object opened in the publishing "
+    "function itself must be closed/flushed before the rename. (8) After the publishing rename no data-writing "
+    "ShareFile method (one that write()s/truncate()s outside the lease helpers), no BucketWriter helper reaching one "
+    "and no write through a kept file object is reachable. "
     "Undecided: everything that needs real crash points - torn writes inside one f.write, fsync/ordering in the OS, "
     "the documented windows in MutableShareFile._change_container_size/_write_share_data (known non-claims).")
 TECHNIQUE = ("static analysis: CFG must-precede/must-follow rules, normalised seek/truncate targets, constant folding, "
-             "symbolic replay of file effects against the re-open formula")
+             "symbolic replay of file effects against the re-open formula, escape classification of file objects + "
+             "must-flush-before-rename typestate")
 
 IMM = "storage.immutable"
 MUT = "storage.mutable"
@@ -78,6 +90,257 @@ def enclosing_loop(cfg, node):
         if node.ast is not None and id(node.ast) in body:
             return h
     return None
+
+# ------------------------------------------------------------------ buffered file objects (C29.7 / C29.8)
+BW = IMM + ":BucketWriter"
+OPEN_TAILS = {"open", "fdopen"}
+RENAME_TAILS = {"rename", "renames", "replace", "move", "rename_no_overwrite", "replace_file", "link"}
+HANDLE_CLEAN = {"close", "flush"}
+# methods of a file object that put nothing new into its write buffer
+HANDLE_QUIET = HANDLE_CLEAN | {"tell", "fileno", "seek", "read", "readline", "readlines", "readinto", "seekable",
+                               "readable", "writable", "isatty"}
+FILE_WRITES = {"write", "writelines", "truncate"}
+LEASE_FX = {"_write_lease_record", "_write_encoded_num_leases", "_write_num_leases", "_truncate_leases"}
+
+
+def _buffered_write_open(c):
+    """`c` creates a file object that has a user-space write buffer (open/io.open/os.fdopen/path.open in a mode that
+    can write, not unbuffered).  os.open returns a descriptor and is not buffered."""
+    if call_tail(c) not in OPEN_TAILS or call_name(c) == "os.open":
+        return False
+    pos = 1 if call_name(c) in ("open", "io.open", "os.fdopen", "codecs.open") else 0
+    mode = arg(c, pos, "mode")
+    if mode is None:
+        return False                                   # default mode 'r'
+    if isinstance(mode, ast.Constant) and isinstance(mode.value, str):
+        if not any(ch in mode.value for ch in "wax+"):
+            return False
+    buf = arg(c, pos + 1, "buffering")
+    if isinstance(buf, ast.Constant) and buf.value == 0:
+        return False
+    return True
+
+
+def _all_funcs_of(ci):
+    out = []
+
+    def rec(f):
+        out.append(f)
+        for g in f.nested.values():
+            rec(g)
+    for m in ci.methods.values():
+        rec(m)
+    return out
+
+
+def _cfg_node_of(fn, call):
+    for n in fn.cfg().nodes:
+        if any(x is call for x in node_calls(n, into_lambda=True)):
+            return n
+    return None
+
+
+class _Handle:
+    """One place where a buffered, writable file object on the container is created."""
+    def __init__(self, fn, node, call, kind, names=(), attrs=()):
+        self.fn, self.node, self.call, self.kind = fn, node, call, kind
+        self.names = set(names)       # local names bound to the object
+        self.attrs = set(attrs)       # self.<attr> the object is stored in (it outlives the call)
+
+
+def _survey_handles(ci):
+    """Classify every creation of a buffered writable file object in the methods of `ci`:
+    'with' (closed when the block is left), 'local' (bound to local names only: released when the method returns),
+    'attr' (stored in an instance attribute: outlives the call), 'temp' (open(..).write(..) chain).
+    A method that returns such an object makes its callers creation sites as well."""
+    producers = set()
+    handles = []
+    for _round in range(3):
+        handles = []
+        grew = False
+        for fn in _all_funcs_of(ci):
+            calls = [c for c in calls_in_func(fn, into_lambda=True)
+                     if _buffered_write_open(c) or (attr_path(c.func) or "").startswith("self.")
+                     and call_tail(c) in producers and attr_path(c.func) == "self." + call_tail(c)]
+            for c in calls:
+                n = _cfg_node_of(fn, c)
+                if n is None:
+                    raise AnalysisError("%s: cannot locate %s in the control-flow graph" % (short(fn), src(fn, c)))
+                a = n.ast
+                if n.kind == "with":
+                    managed = False
+                    names = []
+                    for it in a.items:
+                        ce = it.context_expr
+                        if ce is c or (isinstance(ce, ast.Call) and call_tail(ce) == "closing" and ce.args and ce.args[0] is c):
+                            managed = True
+                            if isinstance(it.optional_vars, ast.Name):
+                                names.append(it.optional_vars.id)
+                    if managed:
+                        handles.append(_Handle(fn, n, c, "with", names))
+                        continue
+                if n.kind == "stmt" and isinstance(a, ast.Return) and a.value is c:
+                    if fn.name not in producers and fn.cls is ci and fn.parent is None:
+                        producers.add(fn.name)
+                        grew = True
+                    continue
+                if n.kind == "stmt" and isinstance(a, (ast.Assign, ast.AnnAssign)) and a.value is c:
+                    tg = a.targets if isinstance(a, ast.Assign) else [a.target]
+                    names = {t.id for t in tg if isinstance(t, ast.Name)}
+                    attrs = {t.attr for t in tg if isinstance(t, ast.Attribute) and attr_path(t.value) == "self"}
+                    if len(names) + len(attrs) != len(tg):
+                        raise AnalysisError("%s: cannot track the file object bound by %s" % (short(fn), src(fn, a)))
+                    # aliases and escapes of the local names
+                    defs = all_defs(fn)
+                    for _i in range(4):
+                        for nm, ds in defs.items():
+                            if nm not in names and any(isinstance(d, ast.Name) and d.id in names for d in ds if d is not None):
+                                names.add(nm)
+                    returned = passed = False
+                    for m in fn.cfg().nodes:
+                        b = m.ast
+                        if m.kind != "stmt" or b is None:
+                            continue
+                        if isinstance(b, ast.Assign) and isinstance(b.value, ast.Name) and b.value.id in names:
+                            for t in b.targets:
+                                if isinstance(t, ast.Attribute) and attr_path(t.value) == "self":
+                                    attrs.add(t.attr)
+                                elif not isinstance(t, ast.Name):
+                                    passed = True
+                        if isinstance(b, ast.Return) and isinstance(b.value, ast.Name) and b.value.id in names:
+                            returned = True
+                        for cc in node_calls(m, into_lambda=True):
+                            for x in list(cc.args) + [k.value for k in cc.keywords]:
+                                if any(isinstance(y, ast.Name) and y.id in names for y in own_nodes(x, into_lambda=True)):
+                                    passed = True
+                    if returned:
+                        if fn.name not in producers and fn.cls is ci and fn.parent is None:
+                            producers.add(fn.name)
+                            grew = True
+                        continue
+                    h = _Handle(fn, n, c, "attr" if attrs else "local", names, attrs)
+                    if passed and not attrs:
+                        # handed to other code: fine when it is closed on every normal path anyway
+                        fno = FlowNorm(fn)
+                        closes = lambda m, _nm=names: any(
+                            call_tail(cc) == "close" and isinstance(cc.func, ast.Attribute)
+                            and isinstance(cc.func.value, ast.Name) and cc.func.value.id in _nm for cc in node_calls(m))
+                        if find_path_avoiding(fn.cfg(), lambda x: x.kind == "exit", gate_node=closes, start=n,
+                                              skip_exc_edges=True):
+                            raise AnalysisError("%s: the file object %s is passed to other code and not closed on every "
+                                                "path; cannot track it" % (short(fn), src(fn, c)))
+                    handles.append(h)
+                    continue
+                par = [x for x in own_nodes(a, into_lambda=True) if isinstance(x, ast.Attribute) and x.value is c] \
+                    if a is not None else []
+                if par:
+                    handles.append(_Handle(fn, n, c, "temp"))
+                    continue
+                raise AnalysisError("%s: cannot track the file object created by %s" % (short(fn), src(fn, c)))
+        if not grew:
+            break
+    return handles
+
+
+def _self_call_closure(ci, seed_names):
+    """Names of methods of `ci` that reach a method in seed_names through self.<m>() calls (seed included)."""
+    names = set(seed_names)
+    for _i in range(6):
+        for m in _all_funcs_of(ci):
+            top = m
+            while top.parent is not None:
+                top = top.parent
+            if top.name in names:
+                continue
+            if any(attr_path(c.func) == "self." + call_tail(c) and call_tail(c) in names
+                   for c in calls_in_func(m, into_lambda=True)):
+                names.add(top.name)
+    return names
+
+
+def _share_attrs(idx, bw, sf):
+    """Instance attributes of the bucket writer that are bound to a ShareFile(...)."""
+    out = set()
+    for m in _all_funcs_of(bw):
+        for n in m.cfg().nodes:
+            if n.kind == "stmt" and isinstance(n.ast, ast.Assign) and isinstance(n.ast.value, ast.Call):
+                k = idx.resolve_expr_to_class(m.module, n.ast.value.func)
+                if k is not None and sf in k.mro():
+                    out |= {t.attr for t in n.ast.targets if isinstance(t, ast.Attribute) and attr_path(t.value) == "self"}
+    if not out:
+        raise AnchorVanished("BucketWriter no longer holds a ShareFile")
+    return out
+
+
+class _BufferState:
+    """Must-analysis 'nothing is pending in the write buffer of <owner>.<attr>' inside one function.
+
+    recv      : normalised receiver paths of the file object, e.g. {'self._writer'} or {'self._sharefile._writer'}
+    gates     : {owner path: method names that flush/close the object on every normal path}
+    kills     : {owner path: method names that may write through the object}"""
+    def __init__(self, fn, recv, gates, kills):
+        self.fn, self.recv, self.gates, self.kills = fn, set(recv), gates, kills
+        self.fno = FlowNorm(fn)
+
+    def _recv_norm(self, n, e):
+        try:
+            return self.fno.norm(n, e)
+        except Exception:
+            return attr_path(e) or ""
+
+    def clean_node(self, n):
+        for c in node_calls(n):
+            if not isinstance(c.func, ast.Attribute):
+                continue
+            rv = self._recv_norm(n, c.func.value)
+            if c.func.attr in HANDLE_CLEAN and rv in self.recv:
+                return True
+            if c.func.attr in self.gates.get(rv, ()):
+                return True
+        return False
+
+    def clean_edge(self, n, lab):
+        ef = self.fno.edge_fact(n, lab)
+        if not ef:
+            return False
+        if ef[0] == "false" and ef[1] in self.recv:
+            return True
+        return ef[0] == "is" and {ef[1], ef[2]} in [{p, "None"} for p in self.recv]
+
+    def dirty_node(self, n):
+        for c in node_calls(n, into_lambda=True):
+            if isinstance(c.func, ast.Attribute):
+                rv = self._recv_norm(n, c.func.value)
+                if rv in self.recv and c.func.attr not in HANDLE_QUIET:
+                    return True
+                if c.func.attr in self.kills.get(rv, ()) and c.func.attr not in self.gates.get(rv, ()):
+                    return True
+            for x in list(c.args) + [k.value for k in c.keywords]:
+                if isinstance(x, (ast.Name, ast.Attribute)) and self._recv_norm(n, x) in self.recv:
+                    return True
+        if n.kind == "stmt" and isinstance(n.ast, ast.Assign) and (set(node_stores(n)) & self.recv):
+            v = n.ast.value
+            if not (isinstance(v, ast.Constant) and v.value is None):
+                return True
+        return False
+
+    def pending_at(self, targets):
+        """[(node, witness)] for paths entry -> target on which the buffer may still hold bytes."""
+        return find_path_avoiding(self.fn.cfg(), targets, gate_node=self.clean_node, gate_edge=self.clean_edge,
+                                  kill=self.dirty_node)
+
+
+def _flushers(ci, attr, touchers):
+    """Methods of `ci` after which self.<attr> holds no pending bytes on every normal return path."""
+    names = set()
+    for _i in range(3):
+        for m in ci.methods.values():
+            if m.name in names or m.name not in touchers:
+                continue
+            bs = _BufferState(m, {"self." + attr}, {"self": names}, {"self": touchers})
+            if not bs.pending_at(lambda x: x.kind == "exit"):
+                names.add(m.name)
+    return names
 
 
 def run(ctx: Context):
@@ -581,3 +844,153 @@ def run(ctx: Context):
                                 "get_leases/add_lease on the share fails in unserialize (path: %s)" % w.brief(), w)
         if n_inc == 0:
             raise AnchorVanished("no caller of _write_num_extra_leases in MutableShareFile")
+
+    # ---------------------------------------------------------------- 7. nothing pending in a write buffer at publication
+    with ctx.rule("C29.7", "R1/typestate", "every byte written to the incoming share has left the process (file object "
+                  "closed or flushed) before the rename that publishes the share: a writable file object that outlives "
+                  "the call that created it is flushed/closed on every path to the rename", expected=2) as r:
+        sf = idx.cls(SF)
+        bw = idx.cls(BW)
+        # the share container(s) a bucket writer holds
+        share_attrs = _share_attrs(idx, bw, sf)
+        renames = [(m, n, c) for m in _all_funcs_of(bw) for n in m.cfg().nodes for c in node_calls(n)
+                   if call_tail(c) in RENAME_TAILS]
+        if not renames:
+            raise AnchorVanished("BucketWriter no longer renames the incoming share into place")
+        sf_handles = _survey_handles(sf)
+        bw_handles = _survey_handles(bw)
+        if not sf_handles:
+            raise AnchorVanished("ShareFile no longer opens its container through a buffered file object")
+        # (owner path as seen from BucketWriter, class, attribute, creation site)
+        persistent = []
+        for (ci_, owners, hs) in ((sf, sorted("self." + a for a in share_attrs), sf_handles), (bw, ["self"], bw_handles)):
+            for h in hs:
+                r.site(h.fn, h.call, "%s-managed file object" % h.kind)
+                for a in sorted(h.attrs):
+                    persistent.append((ci_, owners, a, h))
+        n_states = 0
+        for (m, n, c) in renames:
+            r.site(m, c, "publication")
+            # file objects created in the publishing function itself
+            for h in bw_handles:
+                if h.fn is not m or h.kind not in ("with", "local") or not h.names:
+                    continue
+                if h.kind == "with" and not any(x is c for st in h.node.ast.body for x in ast.walk(st)):
+                    continue
+                done = lambda x, _h=h: any(call_tail(cc) in HANDLE_CLEAN and isinstance(cc.func, ast.Attribute)
+                                           and isinstance(cc.func.value, ast.Name) and cc.func.value.id in _h.names
+                                           for cc in node_calls(x))
+                for (t, w) in find_path_avoiding(m.cfg(), lambda x, _n=n: x is _n, gate_node=done, start=h.node):
+                    r.violation(m, m.loc(c), "%s renames the share into place while the file object opened by %s is "
+                                "still open and unflushed: bytes in its buffer are lost if the process is killed now, "
+                                "leaving a visible but incomplete share" % (short(m), src(m, h.call)), w)
+            seen = set()
+            for (ci_, owners, a, h) in persistent:
+                if (ci_.qual, a) in seen:
+                    continue
+                seen.add((ci_.qual, a))
+                touch = _self_call_closure(ci_, {f.name for f in ci_.methods.values()
+                                                 if any(isinstance(x, ast.Attribute) and attr_path(x) == "self." + a
+                                                        for g in [f] + list(f.nested.values())
+                                                        for x in func_own_nodes(g, into_lambda=True))})
+                fl = _flushers(ci_, a, touch)
+                gates = {o: set(fl) for o in owners}
+                kills = {o: set(touch) for o in owners}
+                recv = {o + "." + a for o in owners}
+                if ci_ is not bw:
+                    # helper methods of the bucket writer that flush (or write) through the share they hold
+                    def bw_touch(f):
+                        fn_ = FlowNorm(f)
+                        for x in f.cfg().nodes:
+                            for cc in node_calls(x, into_lambda=True):
+                                if isinstance(cc.func, ast.Attribute) and cc.func.attr in touch \
+                                        and fn_.norm(x, cc.func.value) in owners:
+                                    return True
+                        return any(isinstance(x, ast.Attribute) and attr_path(x) in recv
+                                   for x in func_own_nodes(f, into_lambda=True))
+                    btouch = _self_call_closure(bw, {f.name for f in bw.methods.values() if bw_touch(f)})
+                    bfl = set()
+                    for _i in range(3):
+                        for f in bw.methods.values():
+                            if f.name in bfl or f.name not in btouch or f is m:
+                                continue
+                            g2 = dict(gates)
+                            g2["self"] = set(bfl)
+                            k2 = dict(kills)
+                            k2["self"] = set(btouch)
+                            if not _BufferState(f, recv, g2, k2).pending_at(lambda x: x.kind == "exit"):
+                                bfl.add(f.name)
+                    gates["self"] = bfl
+                    kills["self"] = btouch
+                bs = _BufferState(m, recv, gates, kills)
+                n_states += len(m.cfg().nodes)
+                for (t, w) in bs.pending_at(lambda x, _n=n: x is _n):
+                    how = ("%s flush(es)/close(s) it, but not on every path before the rename" % ", ".join(
+                        sorted("%s.%s" % (ci_.name, x) for x in fl))) if fl else "nothing flushes or closes it"
+                    r.violation(m, m.loc(c), "%s publishes the share with %s while the file object kept in %s.%s (opened "
+                                "by %s in %s, it outlives that call) may still hold written bytes in its user-space "
+                                "buffer; %s. A kill right after the rename leaves a visible share whose tail never "
+                                "reached the file (path: %s)" % (short(m), src(m, c), ci_.name, a, src(h.fn, h.call),
+                                                                 short(h.fn), how, w.brief()), w)
+        r.count(n_states)
+
+    # ---------------------------------------------------------------- 8. no share data written after publication
+    with ctx.rule("C29.8", "R1", "after the rename that publishes the share nothing writes share data any more "
+                  "(no data-writing ShareFile method, no write through a kept file object)", expected=2) as r:
+        sf = idx.cls(SF)
+        bw = idx.cls(BW)
+        direct = set()
+        for f in sf.methods.values():
+            if f.name in LEASE_FX:
+                continue
+            for g in [f] + list(f.nested.values()):
+                for c in calls_in_func(g, into_lambda=True):
+                    if isinstance(c.func, ast.Attribute) and c.func.attr in FILE_WRITES and attr_path(c.func.value) != "self":
+                        direct.add(f.name)
+        if not (direct - {"__init__"}):
+            raise AnchorVanished("no ShareFile method writes share data")
+        dw = _self_call_closure(sf, direct) - {"__init__"} - LEASE_FX
+        for nm in sorted(dw):
+            r.site(sf.methods[nm], None, "data writer")
+        owners8 = {"self." + a for a in _share_attrs(idx, bw, sf)}
+        kept = {"self." + a for h in _survey_handles(bw) for a in h.attrs}
+        bw_writers = _self_call_closure(bw, {f.name for f in bw.methods.values()
+                                             if any(call_tail(c) in dw for g in [f] + list(f.nested.values())
+                                                    for c in calls_in_func(g, into_lambda=True))})
+        renames = [(m, n, c) for m in _all_funcs_of(bw) for n in m.cfg().nodes for c in node_calls(n)
+                   if call_tail(c) in RENAME_TAILS]
+        if not renames:
+            raise AnchorVanished("BucketWriter no longer renames the incoming share into place")
+        for (m, n, c) in renames:
+            r.site(m, c, "publication")
+            mcfg = m.cfg()
+            fno = FlowNorm(m)
+
+            def step(a_, l_, nx, s_, _n=n):
+                if a_ is _n and l_ == "exc":
+                    return None                  # the rename itself failed: nothing was published
+                return 0
+            vis, par = explore(mcfg, 0, step, start=n)
+            after = {i for (i, _s) in vis if i != n.id} | ({n.id} if any(
+                d == n.id for (i, _s) in vis for (d, _l) in mcfg.succ[i]) else set())
+            r.count(len(after))
+            for i in sorted(after):
+                x = mcfg.nodes[i]
+                for cc in node_calls(x, into_lambda=True):
+                    t = call_tail(cc)
+                    bad = None
+                    if t in dw and isinstance(cc.func, ast.Attribute):
+                        rv = fno.norm(x, cc.func.value)
+                        if rv == "self" or (rv.startswith("self.") and not any(
+                                rv == o or rv.startswith(o + ".") for o in owners8)):
+                            continue             # a method of the same name on some other object the writer holds
+                        bad = "calls the data writer %s" % src(m, cc)
+                    elif attr_path(cc.func) == "self." + t and t in bw_writers and t != m.name:
+                        bad = "calls %s, which writes share data" % src(m, cc)
+                    elif isinstance(cc.func, ast.Attribute) and cc.func.attr in FILE_WRITES \
+                            and fno.norm(x, cc.func.value) in kept:
+                        bad = "writes through the kept file object: %s" % src(m, cc)
+                    if bad:
+                        r.violation(m, m.loc(cc), "%s %s after %s has already made the share visible: a kill in between "
+                                    "leaves a published share that is not complete" % (short(m), bad, src(m, c)),
+                                    witness(mcfg, par, (i, 0)))
